@@ -18,6 +18,8 @@ args = sys.argv[1:]
 W = 4
 BENIGN = '--benign' in args
 RERUN = '--rerun' in args
+# --known-only: re-run only the checks that reported the change before plus the check of its own property
+KNOWN_ONLY = '--known-only' in args
 if '--workers' in args:
     i = args.index('--workers'); W = int(args[i + 1]); del args[i:i + 2]
 args = [a for a in args if not a.startswith('--')]
@@ -95,7 +97,11 @@ def evaluate(S, name, d):
         res['suite_out'] = o
     env2 = dict(os.environ, VERIF_SCRATCH=f'{S}/scratch')
     env2.pop('CARGO_TARGET_DIR', None)
-    out = sh(f'{S}/verif/tools/run_all.sh quick', env=env2).stdout
+    ids = ''
+    if RERUN and KNOWN_ONLY and not BENIGN:
+        m = json.load(open(os.path.join(d, 'meta.json')))
+        ids = ' '.join(sorted(set(m.get('quick_checks_reporting_a_violation', {})) | {m['property']}))
+    out = sh(f'{S}/verif/tools/run_all.sh quick {ids}', env=env2).stdout
     det = {}
     for line in out.splitlines():
         m = re.match(r'^(C\d+) (\d+) ?(.*)$', line)
@@ -115,6 +121,10 @@ def refresh(name, d, res):
         meta['checks_with_machinery_exit'] = res['machinery']
         meta['harness_build_failed'] = res['build_failed']
     else:
+        if KNOWN_ONLY:
+            meta['rerun_scope'] = 'checks that reported it before + the check of its own property'
+        else:
+            meta.pop('rerun_scope', None)
         meta['quick_checks_reporting_a_violation'] = res['caught']
         meta['caught_by_own_property_check'] = meta['property'] in res['caught']
         meta['checks_ending_with_a_machinery_exit'] = res['machinery']
